@@ -92,6 +92,13 @@ def run(ctx: Ctx, only=None):
         short = [s for s in allshort if len(s) <= 3] + rng.sample([s for s in allshort if len(s) == 4], 30000)
     inputs = [(s, rng.random() < 0.5, (True, True, False), None) for s in short]
     _run_stream(ctx, "short", inputs)
+    # 3b. every spelling of an exponent: '**' and '^' accept exactly one positive integer literal
+    bases = ["a", "(a+b)", "a:b", "1", "(a)", "a + b"]
+    pops = ["**", "^", " ** ", "^ "]
+    exps = ["0", "00", "000", "1", "01", "2", "02", "3", "(0)", "(1)", "(2)", "(00)", "1.0", "2.", "0.5", "-1", "+1", "+0", "-0", "1e1", "0x2", "1_0",
+            "b", "(a)", "()", "", "2 2", "2**2", "2^0", "0**2", "2 + 1", "(2+1)", "`2`"]
+    inputs = [(b + o + e, rng.random() < 0.8, (True, True, False), None) for b in bases for o in pops for e in exps]
+    _run_stream(ctx, "powers", inputs)
     # 4. multistage enabled: implementation-side oracle only (the model does not cover nested results)
     for _ in range(ctx.n(200, 3000)):
         s, _ = G.gen_formula(rng, depth=2, mutate=0.3)
